@@ -720,9 +720,16 @@ func runStalledWrite(id int, r *rng.R, role string) {
 	wire := append([]byte{}, sc.wire...)
 	sc.mu.Unlock()
 	stop()
-	rec := &Rec{ID: id, Mode: "stream-stalled-write", Case: fmt.Sprintf("%s: %d outbound messages, the write of message %d times out after %d of its %d bytes", role, n, at, keep, len(outs[at-1])),
-		Oracle: map[string]string{}, Tags: []string{"stalled-write", role}, Size: len(all), Skip: true}
-	rec.Impl = fmt.Sprintf("handed=%d wire=%d", handed, len(wire))
+	// the model's writer says what is on the wire: every hand-off before the failing one whole, then
+	// the bytes the transport took, then nothing
+	line := "WRITE " + strconv.Itoa(len(outs))
+	for _, m := range outs {
+		line += " " + desc.Hex(m)
+	}
+	line += " " + strconv.Itoa(at) + " " + strconv.Itoa(keep)
+	rec := &Rec{ID: id, Mode: "stream-stalled-write", Case: line,
+		Oracle: map[string]string{}, Tags: []string{"stalled-write", role, fmt.Sprintf("handed-off=%d/%d", handed, n)}, Size: len(all)}
+	rec.Impl = desc.Hex(wire)
 	verdict := "ok"
 	before := 0
 	for k := 0; k < at-1; k++ {
